@@ -3,7 +3,7 @@
    followed by Print Assumptions. *)
 From Coq Require Import ZArith QArith Qabs Reals List Bool Lia Floats.SpecFloat.
 From Flocq Require Import Core.Zaux Core.Raux Core.Defs Core.Generic_fmt Core.Round_NE Core.Ulp Core.FLT IEEE754.BinarySingleNaN.
-From NV Require Import C02.Model C02.Tables C02.Lemmas C02.ModelQ C02.LemmasQ C02.ModelF C02.LemmasF C02.LemmasFW C02.LemmasFN C02.LemmasFR C02.LemmasFG C02.LemmasFA C02.LemmasFI.
+From NV Require Import C02.Model C02.Tables C02.Lemmas C02.ModelQ C02.LemmasQ C02.ModelF C02.LemmasF C02.LemmasFW C02.LemmasFN C02.LemmasFR C02.LemmasFG C02.LemmasFA C02.LemmasFI C02.LemmasFB.
 Import ListNotations.
 Open Scope Z_scope.
 
@@ -475,6 +475,52 @@ Theorem C02_array_gap_slope_only : forall xs tout sc o t' mn mx hn,
 Proof. exact spm_array_gap. Qed.
 Print Assumptions C02_array_gap_slope_only.
 
+(* C02_array_gap_slope_inter: the NIfTI path (SlopeInterArrayWriter through writer_write) on a
+   whole float64 array, mirroring C02_array_gap_slope_only.  Hypotheses: the array's finite range
+   (mn, mx) is finite and the no-overflow guards |x - i| <= 2^1023, |RN(x - i)/s| <= 2^52 hold for
+   mn, mx and the element considered, (s, i) being the slope and intercept the code stores.
+   Either only zeros are written or every element inside the clip range is stored as
+   k = rint(RN(RN(x - i)/s)) with a value-preserving cast and reloads within
+   |s|/2 + (|x| + |i| + |s|) * 2^-49 of x. *)
+Theorem C02_array_gap_slope_inter : forall xs tout sc o t' mn mx hn,
+  In tout all_itys ->
+  finite_range_f K64 xs = (mn, mx, hn) -> fin K64 mn -> fin K64 mx ->
+  writer_write WSlopeInter (InF K64 xs) tout = Ok (sc, o) ->
+  let s := B2R (sf2b K32 (s_slope sc)) in
+  let i := B2R (sf2b K32 (s_inter sc)) in
+  guard s i mn -> guard s i mx ->
+  o_raw o = repeat 0 (length xs)
+  \/ exists q_mn q_mx nf,
+       o_raw o = map (fun x => fst (cast_to_int K64 tout
+                      (elem_f K64 (fconv K64 (s_slope sc)) (fconv K64 (s_inter sc)) q_mn q_mx nf (fconv K64 x)))) xs
+       /\ forall x, fin K64 x -> guard s i x ->
+            let y := frint K64 (scale_w K64 (fconv K64 (s_slope sc)) (fconv K64 (s_inter sc)) (fconv K64 x)) in
+            fle K64 q_mn y = true -> fle K64 y q_mx = true ->
+            let k := ZnearestE (RN64 (RN64 (B2R (sf2b K64 x) - i) / s)) in
+            let r := snd (read_elem t' K64 (fconv K64 (s_slope sc)) (fconv K64 (s_inter sc)) k) in
+            cast_to_int K64 tout (elem_f K64 (fconv K64 (s_slope sc)) (fconv K64 (s_inter sc)) q_mn q_mx nf (fconv K64 x)) = (k, false)
+            /\ (Rabs (B2R (sf2b K64 r) - B2R (sf2b K64 x))
+                <= Rabs s * / 2 + (Rabs (B2R (sf2b K64 x)) + Rabs i + Rabs s) * bpow radix2 (-49))%R.
+Proof. exact nifti_array_gap. Qed.
+Print Assumptions C02_array_gap_slope_inter.
+
+(* C02_guard_from_range_partial: the guard |x/s| <= 2^52 of C02_array_gap_slope_only derived from
+   the data range.  S = the longdouble slope of _range_scale (finite), stored as float32(S)
+   (finite); M = max |finite element|, 2^(n-148) <= M; n = 15 for int16, 8 for uint8.  If
+   M * 2^-n <= S then the stored slope is non-zero and every |x| <= M has |x/s| <= 2^52 -- for normal
+   and subnormal stored slopes alike (the guard is about overflow, not precision).  PARTIAL: the
+   premise M * 2^-n <= S is not discharged: both candidates of SlopeArrayWriter._range_scale,
+   mx/32767 and mn/(-32768) correctly rounded in longdouble, satisfy it by monotonicity of
+   rounding, but the model's longdouble division/max is not yet identified with that rounding;
+   the slope+intercept writer (guard on x - i) is not covered. *)
+Theorem C02_guard_from_range_partial : forall M S x n, 0 <= n -> n <= 51 ->
+  is_finite (sf2b K80 S) = true -> is_fin_sf (fconv K32 S) = true ->
+  (bpow radix2 (n - 148) <= M)%R -> (Rabs x <= M)%R -> (M * bpow radix2 (- n) <= B2R (sf2b K80 S))%R ->
+  let s := B2R (sf2b K32 (fconv K32 S)) in
+  s <> 0%R /\ (Rabs (x / s) <= bpow radix2 52)%R.
+Proof. exact guard_from_range. Qed.
+Print Assumptions C02_guard_from_range_partial.
+
 (* S-C02c, exactly.  The relative-error argument for the stored slope/intercept
    (C02_setter_rounding: |RN32(S) - S| <= 2^-24 |S|) holds for ideal magnitudes >= 2^-126, the
    smallest normal float32, and for no smaller bound: below it only the absolute error 2^-150 is
@@ -505,15 +551,15 @@ Print Assumptions C02_subnormal_slope_refuted.
    (1) the float32 and longdouble WORKING formats (float32 / float16 / 8- and 16-bit integer data;
        overflow fallback): (a)-(d) and the array lift are proved for the binary64 working format
        only; the float32 reload of SPM99 is not analysed;
-   (2) done per element for binary64 (C02_float_gap_intercept, evaluated verbatim by the harness);
-       not lifted to whole arrays on the NIfTI path (C02_array_lift gives the elements, the
-       composition with writer_write WSlopeInter is missing);
-   (3) done for float64 arrays on the SPM path (C02_array_lift, C02_array_gap_slope_only); not
-       done: the NIfTI path with intercept 0 (same lift through WSlopeInter), arrays containing
-       NaN/inf together with the lift (the per-element theorems allow them), 32/64-bit integer
-       arrays (|x| >= 2^53 round on the way in), and the derivation of the guard |x/s| <= 2^52
-       from the data through the slope formula of _range_scale (longdouble division then
-       C02_setter_rounding) for slopes in float32's normal range;
+   (2) done: C02_float_gap_intercept per element and C02_array_gap_slope_inter for whole float64
+       arrays on the NIfTI path;
+   (3) whole-array lift done for float64 arrays on both paths (C02_array_lift,
+       C02_array_gap_slope_only, C02_array_gap_slope_inter); not done: arrays containing NaN/inf
+       together with the lift, 32/64-bit integer arrays (|x| >= 2^53 round on the way in), and the
+       derivation of the guards from the data: C02_guard_from_range_partial reduces the slope-only
+       guard to M * 2^-n <= S for the longdouble slope S (identification of the model's longdouble
+       division/max with correct rounding missing); nothing yet for the guard on x - i of the
+       slope+intercept writer;
    (4) which elements are inside the clip range: from C02_setter_rounding the overshoot of the
        extreme elements beyond the integer range is at most about 2^-23 * 2^nbits steps for a
        normal slope (not derived formally), unbounded for a subnormal one
